@@ -30,7 +30,7 @@ NOTE = ("Trusts go/types, go/ssa and the VTA call graph of x/tools v0.50.0 and t
         "unsafe/reflect/cgo/linkname in the module (checked on every run); integer arithmetic, buffer sizes and indices are "
         "not modelled; implicit flows are not tracked; sink rules are armed against a positive-control fixture on every run.")
 PENDING = "check not built yet (static rule planned in DESIGN.md); not claimed until it runs clean on the unchanged tree"
-CLAIM = ["C01","C02","C03","C04","C05","C06","C07","C08","C09","C11","C13","C14","C15","C17","C18","C19"]
+CLAIM = ["C01","C02","C03","C04","C05","C06","C07","C08","C09","C10","C11","C12","C13","C14","C15","C17","C18","C19"]
 
 table = json.loads(subprocess.check_output(['/verif/check.sh', 'raw', '-export-props']))
 props = [json.loads(l) for l in open('/verif/properties.jsonl')]
